@@ -19,7 +19,10 @@ use std::collections::BTreeMap;
 pub struct C12;
 
 fn weird_scalar(r: &mut Rng) -> Value {
-    match r.below(14) {
+    match r.below(17) {
+        14 => json!("\u{e9}".repeat(1000 + r.below(3000) as usize)), // long, not ASCII (an error text that quotes it must cut at a character)
+        15 => json!(["\u{fc}".repeat(2000 + r.below(100) as usize), "x".repeat(r.below(5000) as usize)]),
+        16 => json!("x".repeat(r.below(6000) as usize)),
         0 => Value::Null,
         1 => json!(true),
         2 => json!(-1),
@@ -200,6 +203,14 @@ fn gen(seed: u64, family: &str, tier: Tier) -> Case {
     w.parallelism = r.range(1, 8) as usize;
     w.persist = true;
     w.out = None;
+    if family == "disk-full" || (!family.starts_with("yens-known") && r.chance(0.25)) {
+        // responses also go to a file (any format, any flush rate): a hang or panic in the writer is the batch's
+        // (newline-delimited JSON: a CSV sink records its unmappable columns inside the response it is handed,
+        // which is C19's business)
+        let mut o = gen_out_file(&mut r, &w);
+        o.format = crate::world::OutFormat::Json;
+        w.out = Some(o);
+    }
     let nq = if r.chance(0.08) { 0 } else { r.range(1, 12) as usize };
     let mut batch = vec![];
     let mut kinds: Vec<&'static str> = vec![];
@@ -249,6 +260,14 @@ fn gen(seed: u64, family: &str, tier: Tier) -> Case {
     let mut simcfg = gen_simcfg(&mut r);
     simcfg.max_steps = 1_500_000;
     simcfg.max_alloc_bytes = 256 << 20;
+    if family == "disk-full" {
+        // the disk fills up (or the medium breaks) under the response file and stays that way: run() may fail,
+        // it must still return
+        simcfg.faults = sim::F_SHORT_WRITE | sim::F_EINTR_WRITE | *r.pick(&[sim::F_ENOSPC_WRITE, sim::F_ENOSPC_WRITE, sim::F_EIO_WRITE]);
+        simcfg.io_fault_rate = *r.pick(&[0.05, 0.3, 0.9]);
+        simcfg.max_hard_faults = 1;
+        simcfg.fault_paths = vec!["/sim/out".into()];
+    }
     Case {
         check: "C12".into(),
         seed,
@@ -337,8 +356,14 @@ fn judge(case: &Case, obs: &Obs) -> (Vec<Violation>, BTreeMap<String, u64>, bool
     for p in &obs.panics {
         v.push(Violation { class: panic_class(p), detail: format!("panic: {} at {} (thread {:?}); batch {}", p.message, p.location, p.thread, serde_json::to_string(batch).unwrap().chars().take(500).collect::<String>()) });
     }
+    let hard_fired: u64 = obs.stats.faults.iter().filter(|(k, _)| *k == "eio_write" || *k == "enospc_write").map(|(_, n)| *n).sum();
     let run = match obs.runs.get(0) {
         Some(Some(Ok(r))) => r.clone(),
+        Some(Some(Err(_))) if hard_fired > 0 => {
+            // the response file could not be written: failing is the right answer, and it did return
+            bump("run_failed_on_full_disk", 1);
+            return (v, reach, true);
+        }
         Some(Some(Err(e))) => {
             v.push(Violation { class: format!("run-error|{}", e.chars().take(40).map(|c| if c.is_ascii_digit() { '#' } else { c }).collect::<String>()), detail: format!("run() failed as a whole because of a user query: {} ; batch {}", e, serde_json::to_string(batch).unwrap().chars().take(500).collect::<String>()) });
             return (v, reach, true);
@@ -406,6 +431,8 @@ impl Check for C12 {
         }
         f[7] = "yens-known-panic";
         f[23] = "yens-known-loop";
+        f[13] = "disk-full";
+        f[31] = "disk-full";
         f.push("malformed"); // 41 entries: coprime with the worker count, so directed runs spread over all workers
         f
     }
